@@ -191,6 +191,8 @@ def sib(F, res):
 
 def order(F, res):
     f = F.fn("<tx3_lang::ast::StructConstructor as tx3_lang::lowering::IntoLower>::into_lower")
+    # helper methods the lowering may have been split into (`lower_case_fields`, ..) are inlined
+    f = mir.inline_calls(F, f, want=e3._helper_policy("tx3_lang"), depth=2)
     du = mir.DefUse(f)
     cfg = mir.CFG(f)
     w = where(f)
@@ -202,7 +204,7 @@ def order(F, res):
     for bi, s in aggs:
         rv = s["rv"]
         o = mir.provenance(f, du, rv["ops"][rv["fields"].index("constructor")], transparent_extra=("std::option::Option::<T>::ok_or",))
-        if any(x.kind == "call" and x.callee.endswith("TypeDef::find_case_index") for x in o):
+        if any(x.kind == "call" and (x.callee.endswith("TypeDef::find_case_index") or x.callee.endswith("Iterator::position") or x.callee.endswith("::position")) for x in o):
             good = True
     g = F.fn("tx3_lang::ast::TypeDef::find_case_index")
     pos = any((t.get("callee") or "").endswith("Iterator::position") or (t.get("resolved") or "").endswith("::position") for _, t in mir.calls(g))
